@@ -15,7 +15,7 @@ func init() {
 	registerRule("visit", 12, "every sub-schema position of Schema is passed to the schema expander and the result stored back", ruleVisit)
 	registerRule("containers", 16, "every holder of refable elements is passed to the matching expander and by-value copies are written back", ruleContainers)
 	registerRule("ref-clear", 7, "after a completed dereference every nil-error return has cleared the holder's $ref", ruleRefClear)
-	registerRule("ref-store", 8, "every $ref kept in the output is rewritten against the root frame and is control-dependent on a cycle, skip-schemas or the empty-root guard", ruleRefStore)
+	registerRule("ref-store", 6, "every $ref kept in the output is rewritten against the root frame and is control-dependent on a cycle, skip-schemas or the empty-root guard", ruleRefStore)
 }
 
 // typePositions enumerates access paths from a struct type to nested values of
@@ -91,53 +91,117 @@ type visitInfo struct {
 }
 
 // schemaVisits computes, for one schema expander, the positions below its
-// Schema parameter that are expanded and stored back; whole-target delegation
-// to another schema expander is inlined (bound 2).
+// Schema parameter that are expanded and stored back. Whole-target
+// delegation to another schema expander, and helpers that receive a slice,
+// map or pointer below the target and expand its elements in place, are
+// followed (bound 3).
 func (c *Ctx) schemaVisits(fam *expFamily, f *types.Func, depth int) map[string]*visitInfo {
-	out := map[string]*visitInfo{}
 	fd := c.decl(f)
-	if fd == nil || depth > 2 {
+	if fd == nil {
+		return map[string]*visitInfo{}
+	}
+	return c.schemaVisitsFrom(fam, fd, c.paramObj(fd, 0), depth)
+}
+
+func containsSchema(t types.Type, pkg *types.Package, depth int) bool {
+	if depth > 4 || t == nil {
+		return false
+	}
+	t = types.Unalias(t)
+	if isNamed(t, pkg, "Schema") {
+		return true
+	}
+	switch u := t.Underlying().(type) {
+	case *types.Pointer:
+		return containsSchema(u.Elem(), pkg, depth+1)
+	case *types.Slice:
+		return containsSchema(u.Elem(), pkg, depth+1)
+	case *types.Map:
+		return containsSchema(u.Elem(), pkg, depth+1)
+	case *types.Struct:
+		for i := 0; i < u.NumFields(); i++ {
+			if containsSchema(u.Field(i).Type(), pkg, depth+1) {
+				return true
+			}
+		}
+	}
+	return false
+}
+
+func (c *Ctx) schemaVisitsFrom(fam *expFamily, fd *ast.FuncDecl, target types.Object, depth int) map[string]*visitInfo {
+	out := map[string]*visitInfo{}
+	if fd == nil || fd.Body == nil || depth > 3 || target == nil {
 		return out
 	}
 	c.saw(c.funcName(fd))
-	target := c.paramObj(fd, 0)
 	oc := c.newOriginCtx(fd)
-	for _, call := range c.familyCalls(fam, fd) {
-		g := c.callee(call).(*types.Func)
-		if !fam.schemaExp[g] || len(call.Args) == 0 {
-			continue
+	ast.Inspect(fd.Body, func(n ast.Node) bool {
+		call, ok := n.(*ast.CallExpr)
+		if !ok {
+			return true
 		}
-		var pos []origin
-		for _, o := range oc.origins(call.Args[0], 0) {
-			if o.root == target {
-				pos = append(pos, o)
+		g, ok := c.callee(call).(*types.Func)
+		if !ok || g.Pkg() != c.Types || c.decl(g) == nil {
+			return true
+		}
+		gsig := g.Type().(*types.Signature)
+		for ai, arg := range call.Args {
+			if ai >= gsig.Params().Len() {
+				break
 			}
-		}
-		if len(pos) == 0 {
-			continue
-		}
-		res := c.resultVarOfCall(fd, call)
-		for _, o := range pos {
-			if len(o.steps) == 0 {
-				// delegation on the whole target: counts if the result replaces the target
-				if res != nil && c.storedBack(fd, oc, call, target, nil, res) {
-					for p, vi := range c.schemaVisits(fam, g, depth+1) {
-						if _, dup := out[p]; !dup {
-							out[p] = vi
+			var pos []origin
+			for _, o := range oc.origins(arg, 0) {
+				if o.root == target {
+					pos = append(pos, o)
+				}
+			}
+			if len(pos) == 0 {
+				continue
+			}
+			pt := gsig.Params().At(ai).Type()
+			if fam.schemaExp[g] && ai == 0 {
+				res := c.resultVarOfCall(fd, call)
+				for _, o := range pos {
+					if len(o.steps) == 0 {
+						if res != nil && c.storedBack(fd, oc, call, target, nil, res) {
+							for p, vi := range c.schemaVisits(fam, g, depth+1) {
+								if _, dup := out[p]; !dup {
+									out[p] = vi
+								}
+							}
 						}
+						continue
+					}
+					vi := &visitInfo{call: call}
+					if res != nil {
+						vi.stored = c.storedBack(fd, oc, call, target, o.steps, res)
+					}
+					if prev, dup := out[o.sub()]; !dup || (!prev.stored && vi.stored) {
+						out[o.sub()] = vi
 					}
 				}
 				continue
 			}
-			vi := &visitInfo{call: call}
-			if res != nil {
-				vi.stored = c.storedBack(fd, oc, call, target, o.steps, res)
+			// a helper that receives a reference to storage below the target and expands it in place
+			if !isRefType(pt) || !containsSchema(pt, c.Types, 0) {
+				continue
 			}
-			if prev, dup := out[o.sub()]; !dup || (!prev.stored && vi.stored) {
-				out[o.sub()] = vi
+			gfd := c.decl(g)
+			sub := c.schemaVisitsFrom(fam, gfd, c.paramObj(gfd, ai), depth+1)
+			for _, o := range pos {
+				if o.copy {
+					continue
+				}
+				for p, vi := range sub {
+					key := joinPath(o.sub(), p)
+					if prev, dup := out[key]; !dup || (!prev.stored && vi.stored) {
+						out[key] = &visitInfo{call: call, stored: vi.stored}
+					}
+				}
 			}
 		}
-	}
+		return true
+	})
 	return out
 }
 
@@ -392,6 +456,21 @@ func ruleContainers(c *Ctx) {
 				continue
 			}
 			tn := typeNameOf(derefType(bound.Type()))
+			// direct form: return &bound.Ref, bound.Schema, nil
+			for _, s := range cc.Body {
+				rs, ok := s.(*ast.ReturnStmt)
+				if !ok || len(rs.Results) != 3 || !isNilIdent(c, rs.Results[2]) {
+					continue
+				}
+				if p, ok := c.apath(rs.Results[1]); ok && p.Root == bound {
+					caseSchema[tn] = p.Sub()
+				}
+				if u, isAddr := unparen(rs.Results[0]).(*ast.UnaryExpr); isAddr && u.Op == token.AND {
+					if p, ok := c.apath(u.X); ok && p.Root == bound && lastStep(p) == "Ref" {
+						caseRef[tn] = true
+					}
+				}
+			}
 			for _, s := range cc.Body {
 				as, ok := s.(*ast.AssignStmt)
 				if !ok || len(as.Lhs) != 1 {
@@ -720,6 +799,120 @@ func ruleRefClear(c *Ctx) {
 
 // ---- ref-store ----
 
+type argBinding struct {
+	fd   *ast.FuncDecl
+	expr ast.Expr
+}
+
+type refAlt struct {
+	class string // clear | denorm | abs | other
+	lits  []condLit
+	why   string
+}
+
+// isNormalisedRef: the expression denotes a normalised reference: the result of normalizeRef, or of
+// NewRef(normalizeURI(..)), possibly through a parameter bound at the call site.
+func (c *Ctx) isNormalisedRef(fd *ast.FuncDecl, e ast.Expr, env map[types.Object]argBinding, depth int) bool {
+	if depth > 3 {
+		return false
+	}
+	e = unparen(e)
+	if u, ok := e.(*ast.UnaryExpr); ok && u.Op == token.AND {
+		e = unparen(u.X)
+	}
+	if st, ok := e.(*ast.StarExpr); ok {
+		e = unparen(st.X)
+	}
+	id, ok := e.(*ast.Ident)
+	if !ok {
+		return false
+	}
+	o := c.objOf(id)
+	if b, bound := env[o]; bound {
+		return c.isNormalisedRef(b.fd, b.expr, nil, depth+1)
+	}
+	ds := c.localDefs(fd)[o]
+	if len(ds) == 0 {
+		return false
+	}
+	for _, d := range ds {
+		call, ok := unparen(d).(*ast.CallExpr)
+		if !ok {
+			return false
+		}
+		switch {
+		case c.isSpecFunc(call, "normalizeRef"):
+		case c.isSpecFunc(call, "NewRef") && len(call.Args) == 1:
+			inner, ok := unparen(call.Args[0]).(*ast.CallExpr)
+			if !ok || !c.isSpecFunc(inner, "normalizeURI") {
+				return false
+			}
+		default:
+			return false
+		}
+	}
+	return true
+}
+
+// refAlternatives abstracts an expression of type Ref to the alternatives it can evaluate to, following
+// package helpers that return a Ref (bound 2).
+func (c *Ctx) refAlternatives(fam *expFamily, fd *ast.FuncDecl, e ast.Expr, env map[types.Object]argBinding, depth int) []refAlt {
+	e = unparen(e)
+	if c.isZeroRefLit(e) {
+		return []refAlt{{class: "clear"}}
+	}
+	if call, ok := e.(*ast.CallExpr); ok {
+		if c.isSpecFunc(call, "denormalizeRef") && len(call.Args) == 3 {
+			p1, ok1 := c.apath(call.Args[1])
+			p2, ok2 := c.apath(call.Args[2])
+			frameOK := ok1 && ok2 && len(p1.Steps) == 2 && len(p2.Steps) == 2 && p1.Steps[0] == "context" && p2.Steps[0] == "context" &&
+				p1.Steps[1] == "basePath" && p2.Steps[1] == "rootID" && isNamed(p1.Root.Type(), c.Types, fam.loader.Obj().Name())
+			if !frameOK {
+				return []refAlt{{class: "other", why: fmt.Sprintf("kept $ref is rewritten against (%s, %s) instead of the root context's (basePath, rootID): it no longer resolves from the root document", exprString(call.Args[1]), exprString(call.Args[2]))}}
+			}
+			if !c.isNormalisedRef(fd, call.Args[0], env, 0) {
+				return []refAlt{{class: "other", why: "the reference handed to denormalizeRef is not a normalised (absolute) reference"}}
+			}
+			return []refAlt{{class: "denorm"}}
+		}
+		if g, ok := c.callee(call).(*types.Func); ok && g.Pkg() == c.Types && depth < 2 {
+			gfd := c.decl(g)
+			gsig := g.Type().(*types.Signature)
+			if gfd != nil && gfd.Body != nil && gsig.Results().Len() == 1 && isNamed(gsig.Results().At(0).Type(), c.Types, "Ref") {
+				c.saw(c.funcName(gfd))
+				genv := map[types.Object]argBinding{}
+				for i, a := range call.Args {
+					if p := c.paramObj(gfd, i); p != nil {
+						genv[p] = argBinding{fd, a}
+					}
+				}
+				var out []refAlt
+				ast.Inspect(gfd.Body, func(n ast.Node) bool {
+					if _, isLit := n.(*ast.FuncLit); isLit {
+						return false
+					}
+					rs, ok := n.(*ast.ReturnStmt)
+					if !ok || len(rs.Results) != 1 {
+						return true
+					}
+					for _, alt := range c.refAlternatives(fam, gfd, rs.Results[0], genv, depth+1) {
+						alt.lits = append(alt.lits, c.literalsAt(gfd, rs)...)
+						out = append(out, alt)
+					}
+					return true
+				})
+				if len(out) > 0 {
+					return out
+				}
+			}
+		}
+	}
+	if c.isNormalisedRef(fd, e, env, 0) {
+		return []refAlt{{class: "abs"}}
+	}
+	return []refAlt{{class: "other", why: "store into a schema's Ref that is neither a clear nor a rewrite of a normalised reference: " + exprString(e)}}
+}
+
 func ruleRefStore(c *Ctx) {
 	const rule = "ref-store"
 	fam := c.family()
@@ -727,12 +920,9 @@ func ruleRefStore(c *Ctx) {
 		c.undecided(rule, "family", token.NoPos, "expander family not found by role")
 		return
 	}
-	// role of helper functions
-	isCall := func(call *ast.CallExpr, name string) bool { return c.isSpecFunc(call, name) }
 	for _, f := range fam.order {
 		fd := c.decl(f)
 		fn := c.funcName(fd)
-		defs := c.localDefs(fd)
 		ord := 0
 		ast.Inspect(fd.Body, func(n ast.Node) bool {
 			as, ok := n.(*ast.AssignStmt)
@@ -748,110 +938,66 @@ func ruleRefStore(c *Ctx) {
 			}
 			c.saw(fn)
 			ord++
-			r := unparen(as.Rhs[0])
-			lits := c.literalsAt(fd, as)
-			hasLit := func(pred func(e ast.Expr) bool, wantNeg bool) bool {
-				for _, cl := range lits {
-					if cl.neg == wantNeg && pred(cl.e) {
-						return true
+			site := c.literalsAt(fd, as)
+			alts := c.refAlternatives(fam, fd, as.Rhs[0], nil, 0)
+			if len(alts) == 1 && alts[0].class == "clear" {
+				c.ob(rule, fmt.Sprintf("%s:clear#%d", fn, ord), as.Pos(), true, "")
+				return true
+			}
+			key := fmt.Sprintf("%s:keep#%d", fn, ord)
+			good, why := true, ""
+			for _, alt := range alts {
+				lits := append(append([]condLit{}, site...), alt.lits...)
+				hasLit := func(pred func(e ast.Expr) bool, wantNeg bool) bool {
+					for _, cl := range lits {
+						if cl.neg == wantNeg && pred(cl.e) {
+							return true
+						}
 					}
-				}
-				return false
-			}
-			circular := hasLit(func(e ast.Expr) bool {
-				call, ok := unparen(e).(*ast.CallExpr)
-				return ok && c.isSpecMethod(call, fam.loader.Obj().Name(), "isCircular")
-			}, false)
-			optionLit := func(field string, neg bool) bool {
-				return hasLit(func(e ast.Expr) bool {
-					p, ok := c.apath(e)
-					return ok && lastStep(p) == field
-				}, neg)
-			}
-			// normalised reference: result of normalizeRef, or NewRef(normalizeURI(..))
-			normalised := func(e ast.Expr) bool {
-				e = unparen(e)
-				if u, ok := e.(*ast.UnaryExpr); ok && u.Op == token.AND {
-					e = unparen(u.X)
-				}
-				if st, ok := e.(*ast.StarExpr); ok {
-					e = unparen(st.X)
-				}
-				id, ok := e.(*ast.Ident)
-				if !ok {
 					return false
 				}
-				ds := defs[c.objOf(id)]
-				if len(ds) == 0 {
-					return false
+				circular := hasLit(func(e ast.Expr) bool {
+					call, ok := unparen(e).(*ast.CallExpr)
+					return ok && c.isSpecMethod(call, fam.loader.Obj().Name(), "isCircular")
+				}, false)
+				optionLit := func(field string, neg bool) bool {
+					return hasLit(func(e ast.Expr) bool {
+						p, ok := c.apath(e)
+						return ok && lastStep(p) == field
+					}, neg)
 				}
-				for _, d := range ds {
-					call, ok := unparen(d).(*ast.CallExpr)
+				emptyRoot := hasLit(func(e ast.Expr) bool {
+					call, ok := unparen(e).(*ast.CallExpr)
 					if !ok {
 						return false
 					}
+					_, name, _, isM := c.calleeMethod(call)
+					return isM && name == "IsRoot"
+				}, false)
+				switch alt.class {
+				case "clear":
+				case "other":
+					good, why = false, alt.why
+				case "denorm":
 					switch {
-					case isCall(call, "normalizeRef"):
-					case isCall(call, "NewRef") && len(call.Args) == 1:
-						inner, ok := unparen(call.Args[0]).(*ast.CallExpr)
-						if !ok || !isCall(inner, "normalizeURI") {
-							return false
-						}
-					default:
-						return false
-					}
-				}
-				return true
-			}
-			switch {
-			case c.isZeroRefLit(r):
-				c.ob(rule, fmt.Sprintf("%s:clear#%d", fn, ord), as.Pos(), true, "")
-			default:
-				key := fmt.Sprintf("%s:keep#%d", fn, ord)
-				call, isC := r.(*ast.CallExpr)
-				if isC && isCall(call, "denormalizeRef") && len(call.Args) == 3 {
-					// root frame: <loader>.context.basePath / .rootID
-					p1, ok1 := c.apath(call.Args[1])
-					p2, ok2 := c.apath(call.Args[2])
-					frameOK := ok1 && ok2 && len(p1.Steps) == 2 && len(p2.Steps) == 2 && p1.Steps[0] == "context" && p2.Steps[0] == "context" &&
-						p1.Steps[1] == "basePath" && p2.Steps[1] == "rootID" && isNamed(p1.Root.Type(), c.Types, fam.loader.Obj().Name())
-					switch {
-					case !frameOK:
-						c.ob(rule, key, as.Pos(), false, fmt.Sprintf("kept $ref is rewritten against (%s, %s) instead of the root context's (basePath, rootID): it no longer resolves from the root document", exprString(call.Args[1]), exprString(call.Args[2])))
-					case !normalised(call.Args[0]):
-						c.ob(rule, key, as.Pos(), false, "the reference handed to denormalizeRef is not a normalised (absolute) reference")
 					case circular && optionLit("AbsoluteCircularRef", true), optionLit("SkipSchemas", false):
-						c.ob(rule, key, as.Pos(), true, "")
 					case circular:
-						c.ob(rule, key, as.Pos(), false, "relative form is stored although AbsoluteCircularRef is not known to be false here (wrong polarity)")
+						good, why = false, "relative form is stored although AbsoluteCircularRef is not known to be false here (wrong polarity)"
 					default:
-						c.ob(rule, key, as.Pos(), false, "a rewritten $ref is kept although neither a detected cycle nor skip-schemas mode guards the store")
+						good, why = false, "a rewritten $ref is kept although neither a detected cycle nor skip-schemas mode guards the store"
 					}
-					return true
-				}
-				if normalised(r) {
-					emptyRoot := hasLit(func(e ast.Expr) bool {
-						call, ok := unparen(e).(*ast.CallExpr)
-						if !ok {
-							return false
-						}
-						_, name, _, isM := c.calleeMethod(call)
-						return isM && name == "IsRoot"
-					}, false)
+				case "abs":
 					switch {
 					case emptyRoot:
-						c.ob(rule, key, as.Pos(), true, "")
 					case circular && optionLit("AbsoluteCircularRef", false):
-						c.ob(rule, key, as.Pos(), true, "")
 					case circular:
-						c.ob(rule, key, as.Pos(), false, "absolute form is stored although AbsoluteCircularRef is not known to be true here (wrong polarity)")
+						good, why = false, "absolute form is stored although AbsoluteCircularRef is not known to be true here (wrong polarity)"
 					default:
-						c.ob(rule, key, as.Pos(), false, "an absolute $ref is kept although no detected cycle guards the store")
+						good, why = false, "an absolute $ref is kept although no detected cycle guards the store"
 					}
-					return true
 				}
-				c.ob(rule, key, as.Pos(), false, "store into a schema's Ref that is neither a clear nor a rewrite of a normalised reference: "+exprString(r))
 			}
+			c.ob(rule, key, as.Pos(), good, why)
 			return true
 		})
 	}
